@@ -1,0 +1,29 @@
+//go:build verif
+
+package ackhandler
+
+import "github.com/refraction-networking/uquic/internal/protocol"
+
+// Read-only accessors for the verification harness in /verif (compiled only with -tags verif).
+
+// VerifBytesInFlight returns the handler's bytes-in-flight counter.
+func VerifBytesInFlight(h SentPacketHandler) protocol.ByteCount {
+	switch x := h.(type) {
+	case *sentPacketHandler:
+		return x.bytesInFlight
+	case *uSentPacketHandler:
+		return x.sentPacketHandler.bytesInFlight
+	}
+	panic("verif: unknown SentPacketHandler implementation")
+}
+
+// VerifCongestionWindow returns the current congestion window.
+func VerifCongestionWindow(h SentPacketHandler) protocol.ByteCount {
+	switch x := h.(type) {
+	case *sentPacketHandler:
+		return x.congestion.GetCongestionWindow()
+	case *uSentPacketHandler:
+		return x.sentPacketHandler.congestion.GetCongestionWindow()
+	}
+	panic("verif: unknown SentPacketHandler implementation")
+}
